@@ -444,10 +444,19 @@ inductive GenOut
   | stuck
   deriving DecidableEq, Repr
 
+/-- answer of `GenMetricID` when the namespace / metric-name limits are on -/
+inductive LimOut
+  | out (o : GenOut)
+  | tooManyNamespaces
+  | tooManyMetrics
+  deriving DecidableEq, Repr
+
 structure Limits where
   maxFields : Nat := 256     -- Limits.MaxFieldsPerMetric
   maxTags : Nat := 32        -- Limits.MaxTagsPerMetric
   maxSeries : Nat := 200000  -- Limits.MaxSeriesPerMetric
+  maxNamespaces : Nat := 0   -- Limits.MaxNamespaces (0 = no check)
+  maxMetrics : Nat := 0      -- Limits.MaxMetrics (0 = no check)
   deriving DecidableEq, Repr
 
 /-- the locked part of `genFieldID` on the schema pointer `p` -/
@@ -591,6 +600,9 @@ structure Cfg where
   kvCacheAddGuarded : Bool := false
   /-- the schema lookup of the create path (`getSchemaLocked`) consults the LRU cache (lindb's does not) -/
   schemaLockedUsesCache : Bool := false
+  /-- `metricIndexDatabase.Flush` returns at once when one of its steps fails (`if err := step(); err != nil
+  { return err }` around every step, lindb) — otherwise the remaining steps still run (e.g. `errors.Join`) -/
+  indexFlushAborts : Bool := true
   deriving DecidableEq, Repr
 
 structure Node where
@@ -625,6 +637,30 @@ def genMetric (c : Cfg) (nd : Node) (nb nsName name : Nat) : Node × GenOut :=
     match r2.2.2 with
     | none => (nd, .stuck)
     | some i => (nd, .id i)
+
+/-- `createValue` whose createFn returns an error: the bucket's map was made before createFn ran
+(`s.mutable.Put(bucketID, kvs)`, so `mutable.IsEmpty()` is false from now on), nothing is stored under the
+name, no counter moves -/
+def _root_.LinVerif.IdAssign.KvStore.refused (s : KvStore) : KvStore := { s with mutEmpty := false }
+
+/-- `GenMetricID` with the namespace / metric-name limits: createFn of the namespace dictionary is `genNSID`
+(`EnableNamespacesCheck() && MaxNamespaces < sequence.GetNamespaceSeq()` → ErrTooManyNamespace), of the
+metric dictionary `genMetricID` (the same with MaxMetrics). createFn runs only when the name is in neither
+memory map nor the snapshot; the counter value it compares with is the number of ids handed out so far. -/
+def genMetricLim (c : Cfg) (nd : Node) (nb nsName name : Nat) : Node × LimOut :=
+  if (nd.ns.lookup nb nsName).isNone ∧ nd.lim.maxNamespaces > 0 ∧ nd.lim.maxNamespaces < nd.seqMem.ns then
+    ({ nd with ns := nd.ns.refused }, .tooManyNamespaces)
+  else
+    let r := getOrCreate c.kv nd.ns nd.seqMem.ns nb nsName
+    let nd2 := afterAlloc c { nd with ns := r.1, seqMem := { nd.seqMem with ns := r.2.1 } }
+    match r.2.2 with
+    | none => (nd2, .out .stuck)
+    | some nsID =>
+      if (nd2.metric.lookup nsID name).isNone ∧ nd.lim.maxMetrics > 0 ∧ nd.lim.maxMetrics < nd2.seqMem.metric then
+        ({ nd2 with metric := nd2.metric.refused }, .tooManyMetrics)
+      else
+        let g := nd.genMetric c nb nsName name
+        (g.1, .out g.2)
 
 /-- `GetMetricID` (lookup only) -/
 def getMetric (nd : Node) (nb nsName name : Nat) : Option Nat :=
@@ -846,6 +882,23 @@ def stepsBeforeCommit (sh : Shard) (j : Nat) : Nat :=
       else go (i + 1) fuel j
   go 0 5 j
 
+/-- `metricIndexDatabase.Flush` with ONE fault: `steps` = the steps in the order the source runs them
+(numbers of `Shard.flushStep`), `k` = the step whose kv family commit fails. A step that has nothing to
+write (`needFlush()` false) returns nil before it builds a flusher, so it cannot fail. The failing step
+changes nothing (its `immutable` table stays, see `kvFlushErrBranchCalls` / `invertedFlushErrBranchCalls`).
+`abort` = the control flow of Flush: the error is returned at once (lindb) — or the remaining steps
+still run. Returns the shard and whether Flush reports an error. -/
+def flushFaultGo (abort : Bool) (k : Nat) : List Nat → Shard → Shard × Bool
+  | [], sh => (sh, false)
+  | i :: rest, sh =>
+    if i = k ∧ shardCommits sh i = true then
+      (if abort then sh else (flushFaultGo abort k rest sh).1, true)
+    else flushFaultGo abort k rest (sh.flushStep i)
+
+def indexFlushFault (nd : Node) (abort : Bool) (steps : List Nat) (shard k : Nat) : Node × Bool :=
+  let r := flushFaultGo abort k steps (nd.shards shard)
+  (nd.setShard shard r.1, r.2)
+
 /-- `count` GenTagValueID calls for the new names `lo …` of tag key `tk` in a row (big-bucket region;
 the harness uses these names through this operation only) -/
 def genTagValueRange (c : Cfg) (nd : Node) (tk lo count : Nat) : Node × Nat :=
@@ -925,6 +978,24 @@ def step (c : Cfg) (nd : Node) : Op → Node × Option GenOut
 def run (c : Cfg) : Node → List Op → Node
   | nd, [] => nd
   | nd, op :: rest => run c (step c nd op).1 rest
+
+/-! ## Histories with faulted index flushes -/
+
+inductive FOp
+  | op (o : Op)                       -- any operation of the sequential history model (crashes, reopen, failed metadata flushes included)
+  | indexFlushFault (shard k : Nat)   -- one shard's real `Flush()` during which step `k` fails (k ≥ 4: no fault)
+  | metricLim (nb ns name : Nat)      -- `GenMetricID` under namespace / metric-name limits (may be refused)
+  deriving Repr
+
+/-- `steps` / `abort`: order and control flow of `metricIndexDatabase.Flush` (regenerated facts, see IdAssignCfg) -/
+def fstep (c : Cfg) (steps : List Nat) (nd : Node) : FOp → Node
+  | .op o => (step c nd o).1
+  | .indexFlushFault sh k => (nd.indexFlushFault c.indexFlushAborts steps sh k).1
+  | .metricLim nb ns name => (nd.genMetricLim c nb ns name).1
+
+def frun (c : Cfg) (steps : List Nat) : Node → List FOp → Node
+  | nd, [] => nd
+  | nd, op :: rest => frun c steps (fstep c steps nd op) rest
 
 /-! ## The memdb index worker (`indexDatabase.handle`): rows and flush requests from one channel -/
 
